@@ -402,8 +402,41 @@ def mat(m) -> str:
     return " ".join([f"M{len(m)}"] + [vec(r) for r in m])
 
 
+def gen_iter_storm(rng) -> list:
+    """several iterators advanced in a random interleaving while the ensemble grows and is looped over"""
+    nA, nC = rng.choice([0, 1, 2]), rng.range(1, 5)
+    ops = [f"ctorAtoms {nA} {nC}"]
+    nit = rng.range(2, 3)
+    ops += ["iterNew"] * nit
+    grown = 0
+    for _ in range(rng.range(8, 22)):
+        r = rng.below(20)
+        if r < 11:
+            ops.append(f"iterNext {rng.below(nit + (1 if rng.chance(1, 15) else 0))}")
+        elif r < 13 and grown < 3:
+            ops.append("append " + rgeom(rng, nA))
+            grown += 1
+        elif r < 14 and grown < 3:
+            ops.append("extendSelf")
+            grown += 2
+        elif r < 15:
+            ops.append("iterNew")
+            nit += 1
+        elif r < 17:
+            ops.append("loop")
+        elif r < 18:
+            ops.append("nestedLoop")
+        elif r < 19:
+            ops.append(f"writeCoords {rng.below(nC)} " + conf(rconf(rng, nA)))
+        else:
+            ops.append(f"slice {rng.choice(['-', '1', '-1'])} - {rng.choice(['-', '-1', '2'])}")
+    return ops + ["loop"]
+
+
 def gen_sequence(rng, quick: bool) -> list:
     """a history: starts with a construction; mostly valid operations, some that must fail"""
+    if rng.chance(1, 4):
+        return gen_iter_storm(rng)
     ops = []
     nA = rng.choice([0, 1, 2, 3, 3, 4, 6])
     nC = rng.choice([0, 1, 2, 3, 5])
@@ -526,7 +559,9 @@ def oracle_step(ctx, py: Py, line: str, out: str, before, history: list):
     nc = c.shape[0] if c.ndim else -1
     rect = c.shape == (nc, e.n_atoms, 3) and q.shape == (nc, e.n_atoms) and w.shape == (nc,)
     if not rect:
-        kind = "C14:grow-leaves-charges-or-weights-behind" if op in ("append", "extendEns", "extendSelf", "extendGeoms") else "C14:arrays-disagree"
+        among = c.ndim == 3 and q.shape == c.shape[:2] and w.shape == c.shape[:1] and c.shape[2] == 3
+        kind = ("C14:arrays-disagree-with-atom-list" if among else
+                "C14:grow-leaves-charges-or-weights-behind" if op in ("append", "extendEns", "extendSelf", "extendGeoms") else "C14:arrays-disagree")
         ctx.violation(kind, f"after `{op}`: coords {c.shape}, atomic_charges {q.shape}, weights {w.shape}, n_atoms {e.n_atoms}", replay)
         return False
     if out == "err" and before is not None and not op.startswith("ctor"):
@@ -551,6 +586,20 @@ def oracle_step(ctx, py: Py, line: str, out: str, before, history: list):
         own = eq_arr(np, b1[i], q[i]) if op in ("writeCoords", "writeAtom") else eq_arr(np, b0[i], c[i])
         if not (same_w and others_c and others_q and own):
             ctx.violation("C14:write-through-conformer-touched-something-else", f"`{line[:60]}`", replay)
+        # ... and the written value is in the ensemble's own arrays
+        t = Toks(line.split()[2:])
+        if op == "writeCoords":
+            want, got = np.array(t.conf(), dtype=float).reshape((-1, 3)), c[i]
+        elif op == "writeCharges":
+            want, got = np.array(t.vec(), dtype=float), q[i]
+        elif op == "writeAtom":
+            a = t.nat()
+            want, got = np.array(t.vec(), dtype=float), c[i][a]
+        else:
+            a = t.nat()
+            want, got = np.array(t.num(), dtype=float), q[i][a]
+        if not eq_arr(np, np.asarray(want, dtype=float), np.asarray(got, dtype=float)):
+            ctx.violation("C14:write-through-conformer-lost", f"`{line[:60]}` succeeded but the ensemble's arrays do not show the value", replay)
     return True
 
 
